@@ -1,4 +1,7 @@
-// Schema-2.x track commands of the C01/C06 tie.
+// Schema-2.x track commands of the C01/C06 tie and of the C11 track part.
+//   t2.tracks: key, path and derived columns of EVERY Track row (ordered by id),
+//   Information.uuid and the AUTOINCREMENT counter, read through the C API on the
+//   library's own connection; typed scalars (null / integer / s<hex text>).
 //   t2.row <trackvar>: the raw Track row of the track, read through the C API
 //   on the library's own connection (no library code on the SQL path); the five
 //   BLOB columns are shown decoded (the codecs are C02–C05's subject).
@@ -104,4 +107,36 @@ DJV_CMD(t2_row, "t2.row")
     }
     sqlite3_finalize(st);
     return out;
+}
+
+DJV_CMD(t2_tracks, "t2.tracks")
+{
+    sqlite3* h = main_handle();
+    auto one = [&](const std::string& sql) -> std::string
+    {
+        sqlite3_stmt* st = nullptr;
+        if (sqlite3_prepare_v2(h, sql.c_str(), -1, &st, nullptr) != SQLITE_OK)
+            throw bad_command{std::string("prepare: ") + sqlite3_errmsg(h)};
+        std::string v = "none";
+        if (sqlite3_step(st) == SQLITE_ROW) v = col_scalar(st, 0);
+        sqlite3_finalize(st);
+        return v;
+    };
+    std::string out = "uuid=" + one("SELECT uuid FROM Information ORDER BY id LIMIT 1");
+    out += " seq=" + one("SELECT seq FROM sqlite_sequence WHERE name = 'Track'");
+    sqlite3_stmt* st = nullptr;
+    if (sqlite3_prepare_v2(
+            h, "SELECT id, path, filename, fileType, originDatabaseUuid, originTrackId FROM Track ORDER BY id", -1,
+            &st, nullptr) != SQLITE_OK)
+        throw bad_command{std::string("prepare: ") + sqlite3_errmsg(h)};
+    int n = 0;
+    std::string rows;
+    while (sqlite3_step(st) == SQLITE_ROW)
+    {
+        ++n;
+        rows += " |";
+        for (int i = 0; i < 6; ++i) rows += " " + col_scalar(st, i);
+    }
+    sqlite3_finalize(st);
+    return out + " n=" + std::to_string(n) + rows;
 }
